@@ -174,6 +174,7 @@ class World:
         self.gc_count = 0
         self.listeners = {}
         self.deflists = {}      # option objects handed to composers (see oplang compose)
+        self.proxies = {}       # proxy outer pins the "caller" keeps and uses again (never part of the IR, never scanned)
         self.clock = SimClock()
         self.restore_process_state()
         if self.fs is not None:
